@@ -66,7 +66,7 @@ class Tr:
 
     def fresh(self, base):
         self.n += 1
-        return '%s_%d' % (base.strip('_') or 'v', self.n)
+        return '%s_%d' % (base.replace('$', '').strip('_') or 'v', self.n)
 
     # ---- coercion -------------------------------------------------------------------------------
     def coerce(self, atom, t, want, where=''):
@@ -82,6 +82,8 @@ class Tr:
             return atom if not atom.startswith('-') else '(%s)' % atom
         if t == 'none' and isinstance(want, tuple) and want[0] == 'option':
             return 'None'
+        if t == 'emptylist' and isinstance(want, tuple) and want[0] == 'list':
+            return '[]'
         if isinstance(want, tuple) and want[0] == 'option' and t != 'none':
             return '(Some %s)' % self.coerce(atom, t, want[1], where)
         raise Unsupported('cannot use a %s where a %s is expected %s' % (ty_str(t) if t not in ('intlit', 'none') else t,
@@ -112,6 +114,16 @@ class Tr:
                 return k(*env[('$field', path)])
             if path in sp.get('fields', {}):
                 return k(*sp['fields'][path])
+            # attribute of a heap object: read from the heap parameter of the spec
+            if e.attr in sp.get('obj_attrs', {}):
+                fn, t = sp['obj_attrs'][e.attr]
+                hv = sp['heap']
+
+                def heap_read(a, ta):
+                    if ta != 'obj':
+                        raise Unsupported('attribute %s of a %s' % (path, ty_str(ta) if ta not in ('intlit', 'none') else ta))
+                    return k('(%s (get %s %s))' % (fn, hv, a), t)
+                return self.expr(e.value, env, heap_read)
             # attribute of a record value
             if e.attr in sp.get('attrs', {}):
                 fn, rect, t = sp['attrs'][e.attr]
@@ -134,6 +146,12 @@ class Tr:
             return self.call(e, env, k)
         if isinstance(e, ast.ListComp):
             return self.listcomp(e, env, k)
+        if isinstance(e, ast.List):
+            if not e.elts:
+                return k('[]', 'emptylist')
+            if len(e.elts) == 1:
+                return self.expr(e.elts[0], env, lambda a, ta: k('[%s]' % a, ('list', ta)))
+            raise Unsupported('list literal with %d elements' % len(e.elts))
         if isinstance(e, (ast.Compare, ast.BoolOp)) or (isinstance(e, ast.UnaryOp) and isinstance(e.op, ast.Not)):
             return self.cond(e, env, lambda env1: k('true', 'bool'), lambda env2: k('false', 'bool'))
         raise Unsupported('expression %s' % ast.dump(e)[:80])
@@ -145,6 +163,8 @@ class Tr:
 
     def binop(self, op, a, ta, b, tb, k):
         o = self.ops
+        if isinstance(ta, tuple) and ta[0] == 'list' and isinstance(op, ast.Add):
+            return k('(%s ++ %s)' % (a, self.coerce(b, tb, ta)), ta)
         if 'num' in (ta, tb):
             a2 = self.coerce(a, ta, 'num', 'in arithmetic')
             b2 = self.coerce(b, tb, 'num', 'in arithmetic')
@@ -182,7 +202,7 @@ class Tr:
     def eqb(self, t):
         if t == 'Z':
             return 'Z.eqb'
-        if t == 'nat':
+        if t in ('nat', 'obj'):
             return 'Nat.eqb'
         raise Unsupported('equality on %s' % ty_str(t))
 
@@ -205,6 +225,16 @@ class Tr:
             if len(e.keywords) == 1 and not e.args and e.keywords[0].arg == 'hours' and 'hours_us' in self.ops:
                 return self.expr(e.keywords[0].value, env, lambda h, th: k('(%s %s)' % (self.ops['hours_us'], self.coerce(h, th, 'num')), 'Z'))
             raise Unsupported('timedelta(...) other than days= / hours=')
+        if name == 'id' and len(e.args) == 1 and not e.keywords and self.spec.get('heap'):
+            # id(obj): the identity of a heap object is its number
+            return self.expr(e.args[0], env, lambda a, ta: k(self.coerce(a, ta, 'obj'), 'obj'))
+        if name == 'set' and not e.args and not e.keywords:
+            return k('[]', 'emptylist')
+        if name in self.spec.get('self_calls', ()):
+            # a call of the function being translated: one unit of fuel less
+            tf = self.spec['self_type']
+            return self.args(list(e.args), tf[1], env, lambda atoms: self._apply(
+                '%s %s %s' % (self.spec['coq_name'], self.rec_fuel, self.spec['heap']), atoms, tf, k))
         if name in ('min', 'max') and len(e.args) == 2 and not e.keywords:
             f = self.ops[name]
             return self.expr(e.args[0], env, lambda a, ta: self.expr(e.args[1], env, lambda b, tb: k(
@@ -236,6 +266,8 @@ class Tr:
         if kind == 'apply':
             # a Coq function (or parameter) applied to python args at the given indices
             _, fn, tf, idx = target
+            if e.keywords or len(e.args) <= max(idx, default=-1):
+                raise Unsupported('call of %s with %d positional arguments (the spec passes arguments %s on)' % (name, len(e.args), idx))
             return self.args([e.args[i] for i in idx], tf[1], env, lambda atoms: self._apply(fn, atoms, tf, k))
         if kind == 'recv_fn':
             # method on a typed receiver translated to a Coq function taking the receiver first
@@ -268,6 +300,8 @@ class Tr:
         if len(e.generators) != 1 or e.generators[0].is_async or not isinstance(e.generators[0].target, ast.Name):
             raise Unsupported('list comprehension shape')
         g = e.generators[0]
+        if not g.ifs and isinstance(e.elt, ast.Name) and e.elt.id == g.target.id:
+            return self.expr(g.iter, env, lambda l, tl: k(l, tl) if isinstance(tl, tuple) and tl[0] == 'list' else self._no_list(tl))
 
         def with_iter(l, tl):
             if not (isinstance(tl, tuple) and tl[0] == 'list'):
@@ -281,6 +315,9 @@ class Tr:
             body, tb = self.pure(e.elt, env2)
             return k('(map (fun %s => %s) %s)' % (x, body, src), ('list', tb))
         return self.expr(g.iter, env, with_iter)
+
+    def _no_list(self, tl):
+        raise Unsupported('comprehension over %s' % (ty_str(tl) if tl not in ('intlit', 'none') else tl))
 
     def pure(self, e, env):
         """An expression that cannot raise, as (text, type); fails closed when the translation needs the monad."""
@@ -331,10 +368,10 @@ class Tr:
             if isinstance(op, ast.GtE) and 'leb' in o:
                 return '(%s %s %s)' % (o['leb'], b2, a2)
             raise Unsupported('number comparison %s' % type(op).__name__)
-        if ta == 'nat' and tb == 'nat' and isinstance(op, (ast.Eq, ast.NotEq)):
+        if ta in ('nat', 'obj') and tb == ta and isinstance(op, (ast.Eq, ast.NotEq, ast.Is, ast.IsNot)):
             # objects compared with == (no __eq__ defined: identity), modelled as numbers
             eq = '(Nat.eqb %s %s)' % (a, b)
-            return eq if isinstance(op, ast.Eq) else '(negb %s)' % eq
+            return eq if isinstance(op, (ast.Eq, ast.Is)) else '(negb %s)' % eq
         if ta in ('Z', 'intlit') and tb in ('Z', 'intlit'):
             a2 = self.coerce(a, ta, 'Z')
             b2 = self.coerce(b, tb, 'Z')
@@ -390,6 +427,9 @@ class Tr:
                 env2[key] = (v, ta[1])
                 if not isinstance(l, ast.Name):
                     env2[('$field', key)] = (v, ta[1])
+            elif isinstance(l, ast.Attribute) and isinstance(l.value, ast.Name) and not self.spec.get('state'):
+                # an attribute of a heap object read twice without a write in between (the heap is read-only here)
+                env2[('$field', key)] = (v, ta[1])
             return '(match %s with None => %s | Some %s => %s end)' % (a, k_none(env), v, k_some(env2))
         key = ast.unparse(l)
         if ('$field', key) in env:
@@ -416,6 +456,15 @@ class Tr:
             return self.spec.get('mutators', {}).get(ast.unparse(node.func))
         return None
 
+    def grows(self, node):
+        """name of the local list / set that the statement-level call `name.append(x)` / `name.add(x)` grows"""
+        if isinstance(node, ast.Expr) and isinstance(node.value, ast.Call) and isinstance(node.value.func, ast.Attribute) \
+                and node.value.func.attr in ('append', 'add') and isinstance(node.value.func.value, ast.Name) \
+                and len(node.value.args) == 1 and not node.value.keywords \
+                and node.value.func.value.id in self.spec.get('locals', {}):
+            return node.value.func.value.id
+        return None
+
     def assigned(self, stmts):
         names = []
         for s in stmts:
@@ -423,6 +472,11 @@ class Tr:
                 m = self.mutator_of(n)
                 if m is not None and m[0] not in names:
                     names.append(m[0])
+                g = self.grows(n)
+                if g is not None and g not in names:
+                    names.append(g)
+                if isinstance(n, (ast.Yield, ast.YieldFrom)) and '$yielded' not in names:
+                    names.append('$yielded')
                 if isinstance(n, (ast.Assign, ast.AugAssign, ast.AnnAssign)):
                     ts = n.targets if isinstance(n, ast.Assign) else [n.target]
                     for t in ts:
@@ -433,6 +487,8 @@ class Tr:
         return names
 
     def local_type(self, name):
+        if name == '$yielded':
+            return self.ret
         t = self.spec.get('locals', {}).get(name)
         if t is None:
             raise Unsupported('loop-carried variable %s has no declared type in the spec' % name)
@@ -449,6 +505,8 @@ class Tr:
             return nxt(env)                                  # docstring
         if isinstance(s, ast.Pass):
             return nxt(env)
+        if isinstance(s, ast.FunctionDef) and s.name in self.spec.get('nested_defs', ()):
+            return nxt(env)                                  # a nested function: translated on its own (see the spec)
         if isinstance(s, ast.Return):
             st = self.spec.get('state')
 
@@ -500,6 +558,26 @@ class Tr:
                     cont = self.bind(tgt0.id, v, rt, env2, nxt)
                 return "(do '(%s, %s) <- %s %s %s; %s)" % (st2, v, fn, env[state][0], ' '.join(atoms), cont)
             return self.args(list(val.args), argtypes, env, after_call)
+        g = self.grows(s)
+        if g is not None:
+            t = self.local_type(g)
+
+            def grown(a, ta):
+                return self.bind(g, '(%s ++ [%s])' % (env[g][0], self.coerce(a, ta, t[1])), t, env, nxt)
+            return self.expr(s.value.args[0], env, grown)
+        if isinstance(s, ast.Expr) and isinstance(s.value, ast.Yield):
+            # a generator is translated as the list of what it yields, in order
+            t = self.ret
+
+            def yielded(a, ta):
+                return self.bind('$yielded', '(%s ++ [%s])' % (env['$yielded'][0], self.coerce(a, ta, t[1])), t, env, nxt)
+            return self.expr(s.value.value, env, yielded)
+        if isinstance(s, ast.Expr) and isinstance(s.value, ast.YieldFrom):
+            def extended(a, ta):
+                if ta != self.ret:
+                    raise Unsupported('yield from a %s' % (ty_str(ta),))
+                return self.bind('$yielded', '(%s ++ %s)' % (env['$yielded'][0], a), self.ret, env, nxt)
+            return self.expr(s.value.value, env, extended)
         if isinstance(s, ast.Expr) and isinstance(s.value, ast.Call) and ast.unparse(s.value.func) in self.spec.get('ignored_calls', ()):
             return nxt(env)
         if isinstance(s, ast.Expr) and isinstance(s.value, ast.Call) and ast.unparse(s.value.func) in self.spec.get('appends', {}):
@@ -539,7 +617,9 @@ class Tr:
         for key in list(env2):
             if isinstance(key, tuple) and key[0] == '$sub' and name in (key[1], key[2]):
                 del env2[key]
-        if ta in ('intlit', 'none'):
+            if isinstance(key, tuple) and key[0] == '$field' and key[1].split('.')[0] == name:
+                del env2[key]
+        if ta in ('intlit', 'none', 'emptylist'):
             want = self.spec.get('locals', {}).get(name)
             if want is None:
                 raise Unsupported('variable %s initialised with a bare literal needs a declared type' % name)
@@ -579,9 +659,50 @@ class Tr:
         self.nloops += 1
         return '%s_loop%d' % (self.spec['coq_name'], self.nloops)
 
+    def fold_loop(self, s, rest, env, fall, outer):
+        """`for x in L: body` without return / break, as a monadic fold over L (used inside functions that recurse on
+        fuel: a lifted loop could not call the function it belongs to)"""
+        for n in ast.walk(ast.Module(body=list(s.body), type_ignores=[])):
+            if isinstance(n, (ast.Return, ast.Break)):
+                raise Unsupported('return / break inside a loop of a recursive function')
+        vs = self.carried(s.body, env)
+        vts = [self.local_type(v) if v != '$yielded' else self.ret for v in vs]
+        params = [self.fresh(v.strip('$')) for v in vs]
+        st = self.fresh('st')
+        x = self.fresh(s.target.id)
+
+        def tup(names):
+            return names[0] if len(names) == 1 else '(%s)' % ', '.join(names)
+
+        def pass_vars(env1):
+            return tup([self.coerce(env1[v][0], env1[v][1], t, 'carried by the loop') for v, t in zip(vs, vts)])
+
+        def env_in(base):
+            e2 = {k: v for k, v in base.items() if not (isinstance(k, tuple) and k[0] in ('$sub', '$field'))}
+            for v, p, t in zip(vs, params, vts):
+                e2[v] = (p, t)
+            return e2
+
+        def with_iter(a, ta):
+            if not (isinstance(ta, tuple) and ta[0] == 'list'):
+                raise Unsupported('for over a %s' % (ty_str(ta) if ta not in ('intlit', 'none', 'emptylist') else ta))
+            e_body = env_in(env)
+            e_body[s.target.id] = (x, ta[1])
+            done = lambda env1: 'Ok %s' % pass_vars(env1)
+            body = self.block(list(s.body), e_body, done, done)
+            after = self.block(rest, env_in(env), fall, outer)
+            pat = tup(params)
+            if not vs:
+                return '(do _ <- %s (fun (_ : unit) %s => do _ <- %s; Ok tt) %s tt; %s)' % (self.ops.get('fold', 'fold_res'), x, body, a, after)
+            return "(do %s <- %s (fun %s %s => let '%s := %s in %s) %s %s; let '%s := %s in %s)" % (
+                st, self.ops.get('fold', 'fold_res'), st, x, pat, st, body, a, pass_vars(env), pat, st, after)
+        return self.expr(s.iter, env, with_iter)
+
     def for_loop(self, s, rest, env, fall, outer):
         if s.orelse or not isinstance(s.target, ast.Name):
             raise Unsupported('for-loop form')
+        if self.spec.get('loops') == 'fold':
+            return self.fold_loop(s, rest, env, fall, outer)
         vs = self.carried(s.body, env)
         vts = [self.local_type(v) for v in vs]
         params = [self.fresh(v) for v in vs]
@@ -686,33 +807,57 @@ class Tr:
                 raise Unsupported('parameter %s is not described by the spec' % a)
         defaults = fn.args.defaults
         for a, d in zip(fn.args.args[len(fn.args.args) - len(defaults):], defaults):
-            want = sp.get('defaults', {}).get(a.arg, '<none>')
-            if ast.unparse(d) != want and a.arg not in sp.get('ignored_params', ()):
+            # a default matters to the translation only where the spec says so (a call site of the translated code that
+            # omits the argument); horizons such as max_steps are explicit parameters of the emitted definition
+            want = sp.get('defaults', {}).get(a.arg)
+            if want is not None and ast.unparse(d) != want and a.arg not in sp.get('ignored_params', ()):
                 raise Unsupported('default of %s is %s, the spec expects %s' % (a.arg, ast.unparse(d), want))
         for cname, t in sp.get('signature', []):
             params.append('(%s : %s)' % (cname, ty_str(t)))
 
+        if sp.get('generator'):
+            env['$yielded'] = ('[]', self.ret)
+        self.rec_fuel = self.fresh('fuel') if sp.get('recursive') else None
+
         def fall(env1):
             st = sp.get('state')
+            if sp.get('generator'):
+                return 'Ok %s' % env1['$yielded'][0]
             if isinstance(self.ret, tuple) and self.ret[0] == 'option':
                 return 'Ok (%s, None)' % env1[st][0] if st else 'Ok None'
             if self.ret == 'unit':
                 return 'Ok (%s, tt)' % env1[st][0] if st else 'Ok tt'
             raise Unsupported('control can fall off the end of the function')
         body = self.block(list(fn.body), env, fall)
+        if sp.get('recursive'):
+            # a function that calls itself: structural recursion on an explicit fuel; running out of it is Python's
+            # RecursionError (the depth exceeds the fuel only when the object graph has a cycle or is deeper than the fuel)
+            f0 = self.fresh('fuel')
+            return ''.join(t + '\n' for t in self.lifted) + (
+                'Fixpoint %s (%s : nat) %s {struct %s} : %s :=\n  match %s with\n  | O => Crash RecursionError\n  | S %s => %s\n  end.\n'
+                % (sp['coq_name'], f0, ' '.join(params), f0, self.res_type(), f0, self.rec_fuel, body))
         return ''.join(t + '\n' for t in self.lifted) + 'Definition %s %s : %s :=\n  %s.\n' % (
             sp['coq_name'], ' '.join(params), self.res_type(), body)
 
 
-def find_function(tree, cls, func):
-    """The FunctionDef of `cls.func` (cls None = module level); private names are matched as written."""
+def find_function(tree, cls, func, nested_in=None, decorator=None):
+    """The FunctionDef of `cls.func` (cls None = module level); private names are matched as written.
+    `nested_in`: the function is defined inside that method; `decorator`: text of the decorator that tells a property
+    getter ('property') from its setter ('name.setter')."""
     body = tree.body
     if cls is not None:
         cs = [n for n in tree.body if isinstance(n, ast.ClassDef) and n.name == cls]
         if len(cs) != 1:
             raise Unsupported('class %s found %d times' % (cls, len(cs)))
         body = cs[0].body
+    if nested_in is not None:
+        outer = [n for n in body if isinstance(n, ast.FunctionDef) and n.name == nested_in]
+        if len(outer) != 1:
+            raise Unsupported('function %s.%s found %d times' % (cls, nested_in, len(outer)))
+        body = outer[0].body
     fs = [n for n in body if isinstance(n, ast.FunctionDef) and n.name == func]
+    if decorator is not None:
+        fs = [n for n in fs if decorator in [ast.unparse(d) for d in n.decorator_list]]
     if len(fs) != 1:
         raise Unsupported('function %s.%s found %d times' % (cls, func, len(fs)))
     return fs[0]
@@ -720,5 +865,5 @@ def find_function(tree, cls, func):
 
 def translate(source_text, spec, ops):
     tree = ast.parse(source_text)
-    fn = find_function(tree, spec.get('cls'), spec['func'])
+    fn = find_function(tree, spec.get('cls'), spec['func'], spec.get('nested_in'), spec.get('decorator'))
     return Tr(spec, ops).function(fn)
